@@ -562,7 +562,7 @@ func (d *Driver) finish(id string, spec PropSpec, eng *Engine, t0 time.Time, inc
 		"wall_s": time.Since(t0).Seconds(), "violations": counts["violations"],
 	}
 	cov := map[string]interface{}{}
-	assumptions := append([]string(nil), spec.Assume...)
+	assumptions := append([]string{}, spec.Assume...)
 	if eng != nil {
 		st := eng.stats
 		cov["states"] = st.States
@@ -575,7 +575,7 @@ func (d *Driver) finish(id string, spec PropSpec, eng *Engine, t0 time.Time, inc
 		cov["obligations"] = st.Obligations
 		cov["discharged"] = st.Discharged
 		cov["obligations_unknown"] = st.UnknownObl
-		cov["queries"] = map[string]int64{"total": gStats.Queries, "sat": gStats.Sat, "unsat": gStats.Unsat, "unknown": gStats.Unknown, "errors": gStats.Errors}
+		cov["queries"] = map[string]int64{"total": gStats.Queries, "sat": gStats.Sat, "unsat": gStats.Unsat, "unknown": gStats.Unknown, "errors": gStats.Errors, "retried_after_timeout": gStats.Retries}
 		cov["solver_s"] = float64(gStats.NanosSMT) / 1e9
 		cov["solvers"] = []string{"z3 4.8.12 (-in, incremental, logic ALL: Int + Array Int Int)"}
 		cov["functions_encoded"] = sortedKeys(eng.funcsSeen)
@@ -611,8 +611,15 @@ func (d *Driver) finish(id string, spec PropSpec, eng *Engine, t0 time.Time, inc
 		samples = append(samples, map[string]interface{}{"note": "no obligation was reached"})
 	}
 	cov["samples"] = samples
+	if incon == nil {
+		incon = []string{}
+	}
+	outside := spec.Outside
+	if outside == nil {
+		outside = []string{}
+	}
 	cov["inconclusive"] = incon
-	cov["outside_the_claim"] = spec.Outside
+	cov["outside_the_claim"] = outside
 	cov["exhaustive"] = false
 	ev["coverage"] = cov
 	ev["assumptions"] = assumptions
